@@ -194,6 +194,7 @@ def cli_workspace(ctx, grog, rng, w, nontrivial, stats):
            "tags": [t for t in G.TAGS if rng.random() < 0.1], "exclude": [t for t in G.TAGS if rng.random() < 0.1],
            "type": rng.choice(G.TYPES + ["all", "all"]), "platform": rng.choice(G.PLATFORMS[:2]), "all_platforms": rng.random() < 0.3,
            "inputs": [inputs.get(i, []) for i in range(len(nodes))]}
+    req["exclude"] = [t for t in req["exclude"] if t not in req["tags"]]     # the CLI rejects a tag that is both selected and excluded
     env = G.grog_env(scratch)
     qs, clis = [], []
     for v in rng.sample(range(len(nodes)), min(len(nodes), 5)):
